@@ -19,22 +19,22 @@ import (
 // ---- configuration (harness/props.json) ----
 
 type HarnessCfg struct {
-	Fn       string         `json:"fn"`
-	Quick    map[string]int `json:"quick"`
-	Thorough map[string]int `json:"thorough"`
-	Skip     string         `json:"skip,omitempty"` // "quick" => only in thorough
-	CVC      bool           `json:"prefer_cvc,omitempty"`
-	MapOrder string         `json:"map_order,omitempty"`
-	MaxSec   int            `json:"max_sec,omitempty"`
-	What     string         `json:"what,omitempty"`
-	Optional []string       `json:"optional_labels,omitempty"`       // labels unreachable with this harness configuration
-	OptionalQuick []string  `json:"optional_labels_quick,omitempty"` // labels that need the thorough bounds to be reachable
-	OptionalThorough []string `json:"optional_labels_thorough,omitempty"` // labels the thorough configuration cannot reach
+	Fn               string         `json:"fn"`
+	Quick            map[string]int `json:"quick"`
+	Thorough         map[string]int `json:"thorough"`
+	Skip             string         `json:"skip,omitempty"` // "quick" => only in thorough
+	CVC              bool           `json:"prefer_cvc,omitempty"`
+	MapOrder         string         `json:"map_order,omitempty"`
+	MaxSec           int            `json:"max_sec,omitempty"`
+	What             string         `json:"what,omitempty"`
+	Optional         []string       `json:"optional_labels,omitempty"`          // labels unreachable with this harness configuration
+	OptionalQuick    []string       `json:"optional_labels_quick,omitempty"`    // labels that need the thorough bounds to be reachable
+	OptionalThorough []string       `json:"optional_labels_thorough,omitempty"` // labels the thorough configuration cannot reach
 }
 
 type UnitCfg struct {
-	Pkg       string            `json:"pkg"`   // relative to the module root
-	Files     []string          `json:"files"` // relative to /verif/harness
+	Pkg       string            `json:"pkg"`             // relative to the module root
+	Files     []string          `json:"files"`           // relative to /verif/harness
 	Stubs     map[string]string `json:"stubs,omitempty"` // repo-relative path -> file under /verif/stubs replacing it
 	Init      []string          `json:"init,omitempty"`
 	Once      []string          `json:"once,omitempty"`
@@ -58,21 +58,21 @@ type KnownFinding struct {
 }
 
 type ReplayFile struct {
-	Property string            `json:"property"`
-	Pkg      string            `json:"pkg"`
-	Files    []string          `json:"files"`
-	Init     []string          `json:"init,omitempty"`
-	Once     []string          `json:"once,omitempty"`
-	Env      map[string]string `json:"env,omitempty"`
-	Stubs    map[string]string `json:"stubs,omitempty"`
-	ZeroStubs []string         `json:"zero_stubs,omitempty"`
-	Harness  string            `json:"harness"`
-	Label    string            `json:"label"`
-	Msg      string            `json:"msg,omitempty"`
-	Trace    string            `json:"trace,omitempty"`
-	Values   map[string]uint64 `json:"values"`
-	Params   map[string]int    `json:"params"`
-	MapOrder string            `json:"map_order,omitempty"`
+	Property  string            `json:"property"`
+	Pkg       string            `json:"pkg"`
+	Files     []string          `json:"files"`
+	Init      []string          `json:"init,omitempty"`
+	Once      []string          `json:"once,omitempty"`
+	Env       map[string]string `json:"env,omitempty"`
+	Stubs     map[string]string `json:"stubs,omitempty"`
+	ZeroStubs []string          `json:"zero_stubs,omitempty"`
+	Harness   string            `json:"harness"`
+	Label     string            `json:"label"`
+	Msg       string            `json:"msg,omitempty"`
+	Trace     string            `json:"trace,omitempty"`
+	Values    map[string]uint64 `json:"values"`
+	Params    map[string]int    `json:"params"`
+	MapOrder  string            `json:"map_order,omitempty"`
 }
 
 func loadProps(verif string) (map[string]PropCfg, error) {
